@@ -1,6 +1,7 @@
 package rules
 
 import (
+	"sort"
 	"go/ast"
 	"go/token"
 	"go/types"
@@ -27,7 +28,7 @@ func init() {
 		Doc: "Pointers embedded in generated code are rooted in permanent storage: every pointer argument `&X` passed to an IR emitter that stores a raw pointer in the instruction (encoder ir.Program.VField/Vtab, jitdec _Program.fmv/rtt-style emitters taking pointers) does not take the address of a function-local variable (a local struct/array value or a range copy); addresses of slice elements, package-level variables and values returned by cache lookups are accepted.",
 		Run: runK8})
 	register(&core.Rule{ID: "K9", Min: 3,
-		Doc: "Frame-pointer chain of the generated frames: in each of the three emitters (jitdec._Assembler, jitdec._ValueDecoder, x86.Assembler) the prologue stores BP to d(SP) and then sets BP = LEAQ d(SP) with the same displacement object and value, the epilogue reloads BP from the same d(SP), and d + 8 equals the frame size subtracted from SP.",
+		Doc: "Frame-pointer chain of the generated frames: in each of the three emitters (jitdec._Assembler, jitdec._ValueDecoder, x86.Assembler) the prologue stores BP to d(SP) and then sets BP = LEAQ d(SP) with the same displacement object and value, the epilogue reloads BP from the same d(SP) before the `ADDQ $size, SP` that pops the frame (a reload after the pop reads the caller's frame), and d + 8 equals the frame size subtracted from SP.",
 		Run: runK9})
 }
 
@@ -143,6 +144,12 @@ func runK9(c *core.Ctx) {
 		var save, lea, restore []Operand
 		var sub []Operand
 		var pos token.Pos
+		// order of the epilogue: the saved BP is reloaded while SP still addresses the frame
+		type fpEvent struct {
+			kind string // restore | pop
+			pos  token.Pos
+		}
+		events := map[*ast.FuncDecl][]fpEvent{}
 		for _, fd := range core.FuncDecls(pk) {
 			if fd.Body == nil || fd.Recv == nil || recvTypeName(fd) != tg.recv {
 				continue
@@ -167,8 +174,11 @@ func runK9(c *core.Ctx) {
 					lea = append(lea, a)
 				case op.Mnem == "MOVQ" && isReg(b, "BP") && a.Kind == "mem" && a.Reg == "SP":
 					restore = append(restore, a)
+					events[fd] = append(events[fd], fpEvent{"restore", call.Pos()})
 				case op.Mnem == "SUBQ" && isReg(b, "SP") && a.Kind == "imm":
 					sub = append(sub, a)
+				case op.Mnem == "ADDQ" && isReg(b, "SP") && a.Kind == "imm":
+					events[fd] = append(events[fd], fpEvent{"pop", call.Pos()})
 				}
 				return true
 			})
@@ -198,10 +208,21 @@ func runK9(c *core.Ctx) {
 				why = append(why, "no `SUBQ $size, SP` with size == saved-BP offset + 8")
 			}
 		}
+		for _, evs := range events {
+			sort.Slice(evs, func(i, j int) bool { return evs[i].pos < evs[j].pos })
+			for i, e := range evs {
+				if e.kind == "restore" && (i+1 >= len(evs) || evs[i+1].kind != "pop") {
+					why = append(why, "the reload of BP at "+p.Pos(e.pos)+" is not followed by the `ADDQ $size, SP` that pops the frame")
+				}
+				if e.kind == "restore" && i > 0 && evs[i-1].kind == "pop" && (i+1 >= len(evs) || evs[i+1].kind != "pop") {
+					why = append(why, "BP is reloaded at "+p.Pos(e.pos)+" after the frame was popped at "+p.Pos(evs[i-1].pos)+": d(SP) then addresses the caller's frame, BP is garbage until the caller returns and the runtime's frame-pointer unwinder (tracer, block/mutex profiles) follows a wild pointer")
+				}
+			}
+		}
 		if len(why) > 0 {
 			c.Bad(cn, pos, "%s", strings.Join(why, "; "))
 		} else {
-			c.OK(cn, pos, "BP saved at, pointed to and restored from %s(SP); frame size = %d", exprStr(save[0].DispExp), save[0].Disp+8)
+			c.OK(cn, pos, "BP saved at, pointed to and restored from %s(SP) before the frame is popped; frame size = %d", exprStr(save[0].DispExp), save[0].Disp+8)
 		}
 	}
 }
